@@ -487,6 +487,7 @@ pub fn run_case(seed: u64, idx: u64, exact: bool, verbose: bool) -> Outcome {
     assert_eq!(n, c.nodes.len());
     // where each node's stored layout comes from, over the passes so far (memoised custom tree)
     let mut origin: Vec<&'static str> = vec!["untouched"; n];
+    let mut torigin: Vec<&'static str> = vec!["untouched"; n];
     let mut f_alive = with_f;
     for (p, (a, rounding)) in case.passes.iter().enumerate() {
         if *rounding {
@@ -496,7 +497,11 @@ pub fn run_case(seed: u64, idx: u64, exact: bool, verbose: bool) -> Outcome {
         }
         c.rounding = *rounding;
         f.rounding = *rounding;
+        #[cfg(taffy_verif)]
+        taffy::verif_hooks::start_trace();
         let rt = std::panic::catch_unwind(std::panic::AssertUnwindSafe(|| compute(&mut t, root, *a)));
+        #[cfg(taffy_verif)]
+        let ttrace = taffy::verif_hooks::take_trace();
         #[cfg(taffy_verif)]
         taffy::verif_hooks::start_trace();
         let rc = std::panic::catch_unwind(std::panic::AssertUnwindSafe(|| c.compute_layout(0, *a)));
@@ -521,6 +526,10 @@ pub fn run_case(seed: u64, idx: u64, exact: bool, verbose: bool) -> Outcome {
             if cl != "untouched" {
                 origin[k] = cl;
             }
+            let cl = crate::c01::classify(&ttrace, ids[k]);
+            if cl != "untouched" {
+                torigin[k] = cl;
+            }
         }
         // ---- (a) TaffyTree vs custom tree (in either cache mode)
         let mut bad = vec![];
@@ -528,7 +537,14 @@ pub fn run_case(seed: u64, idx: u64, exact: bool, verbose: bool) -> Outcome {
             out.layouts += 1;
             let du = diff_fields(t.unrounded_layout(ids[k]), &c.nodes[k].unrounded_layout);
             if !du.is_empty() {
-                bad.push(format!("node#{k} unrounded [{}] taffy {:?} custom {:?}", du.join(","), t.unrounded_layout(ids[k]), c.nodes[k].unrounded_layout));
+                bad.push(format!(
+                    "node#{k} unrounded [{}] (last written under: taffy={} custom={}) taffy {:?} custom {:?}",
+                    du.join(","),
+                    torigin[k],
+                    origin[k],
+                    t.unrounded_layout(ids[k]),
+                    c.nodes[k].unrounded_layout
+                ));
             }
             // what layout() hands out: final_layout when rounding is on, the unrounded layout when it is off
             let expect = if *rounding { &c.nodes[k].final_layout } else { &c.nodes[k].unrounded_layout };
